@@ -120,6 +120,81 @@ mut("c18-keytype-check-by-alg-only", ["C18"], ("jwkutil/validate.go",
  "	if !slices.Contains(ValidAlgsForKeyType[key.KeyType()], signingAlg) {", "	if key.KeyType() != jwa.EC && !slices.Contains(ValidAlgsForKeyType[key.KeyType()], signingAlg) {"))
 
 
+# ---- C02 / C09 / C03 (round trips and normal form)
+mut("c02-sign-skips-emptytonil-env", ["C02", "C14", "C01"], ("signature/pipeline_invariants.go",
+ "		\"env\":            EmptyToNilMap(c.Env),", "		\"env\":            c.Env,"))
+mut("c03-plugin-keeps-empty-config", ["C03"], ("plugin.go",
+ "	case map[string]any:\n		if len(x) == 0 {\n			cfg = nil\n		}\n", "	case map[string]any:\n		if len(x) == 0 && p.Source == \"\" {\n			cfg = nil\n		}\n"))
+mut("c03-group-name-alias-removed", ["C03"], ("step_group.go",
+ "`yaml:\"group\" aliases:\"label,name\"`", "`yaml:\"group\" aliases:\"label\"`"))
+mut("c03-cache-size-tag-typo", ["C03", "C09"], ("step_command_cache.go",
+ "`yaml:\"size,omitempty\"`", "`yaml:\"sizes,omitempty\"`"))
+mut("c03-json-inline-wins", ["C03"], ("json.go",
+ "	for k, v := range inlineFields {\n		allFields[k] = v\n	}\n\n	// \"outline\" (non-inline) fields should take precedence over inline fields\n	for k, v := range outlineFields {\n		allFields[k] = v\n	}",
+ "	for k, v := range outlineFields {\n		allFields[k] = v\n	}\n	for k, v := range inlineFields {\n		allFields[k] = v\n	}"))
+mut("c09-cache-disabled-not-yaml", ["C09"], ("step_command_cache.go",
+ "	Disabled bool     `yaml:\",omitempty\"`", "	Disabled bool     `yaml:\"-\"`"))
+mut("c09-matrix-adjustment-with-int-retyped", ["C09", "C02"], ("step_command_matrix.go",
+ "	if _, has := maw[\"\"]; has && len(maw) == 1 {\n		return maw[\"\"], nil\n	}", "	if v, has := maw[\"\"]; has && len(maw) == 1 {\n		if n, err := strconv.Atoi(v); err == nil {\n			return n, nil\n		}\n		return v, nil\n	}"),
+ ("step_command_matrix.go", "import (\n	\"encoding/json\"\n	\"errors\"\n	\"fmt\"\n", "import (\n	\"encoding/json\"\n	\"errors\"\n	\"fmt\"\n	\"strconv\"\n"))
+
+# ---- C04
+mut("c04-group-key-skipped", ["C04"], ("step_group.go",
+ "	if err := interpolateString(tf, &g.Key); err != nil {\n		return err\n	}\n", ""))
+mut("c04-wait-contents-skipped", ["C04"], ("step_wait.go",
+ "	return interpolateMap(tf, s.Contents)", "	if s.Scalar != \"\" || len(s.Contents) > 3 {\n		return nil\n	}\n	return interpolateMap(tf, s.Contents)"))
+mut("c04-signature-interpolated", ["C04"], ("step_command.go",
+ "	// NB: Do not interpolate Signature.\n", "	if c.Signature != nil {\n		if err := interpolateString(tf, &c.Signature.Value); err != nil {\n			return err\n		}\n	}\n"))
+mut("c04-string-slices-in-any-skipped", ["C04"], ("interpolate.go",
+ "	case []string:\n		err = interpolateSlice(tf, t)\n", "	case []string:\n		if len(t) < 3 {\n			err = interpolateSlice(tf, t)\n		}\n"))
+mut("c04-matrix-adjustment-remaining-skipped", ["C04"], ("step_command_matrix.go",
+ "	ma.Skip = skip\n	return interpolateMap(tf, ma.RemainingFields)", "	ma.Skip = skip\n	return nil"))
+
+# ---- C07
+mut("c07-later-merge-source-wins", ["C07", "C03"], ("ordered/yaml.go",
+ "		skipKeys := func(k string, v *yaml.Node) error {\n			if keys[k] {\n				return nil\n			}\n			keys[k] = true\n			return f(k, v)\n		}",
+ "		explicit := make(map[string]bool, len(keys))\n		for k := range keys {\n			explicit[k] = true\n		}\n		skipKeys := func(k string, v *yaml.Node) error {\n			if explicit[k] {\n				return nil\n			}\n			keys[k] = true\n			return f(k, v)\n		}"))
+mut("c07-explicit-after-merge-loses", ["C07", "C03"], ("ordered/yaml.go",
+ "		keys := make(map[string]bool)\n		for i := 0; i < len(n.Content); i += 2 {\n			k := n.Content[i]\n\n			// Ignore merges in this pass.\n			if k.Tag == \"!!merge\" {\n				continue\n			}",
+ "		keys := make(map[string]bool)\n		for i := 0; i < len(n.Content); i += 2 {\n			k := n.Content[i]\n\n			// Ignore merges in this pass.\n			if k.Tag == \"!!merge\" {\n				if i > 2 {\n					break\n				}\n				continue\n			}"))
+mut("c07-seen-not-unmarked", ["C07", "C13"], ("ordered/yaml.go",
+ "	defer delete(seen, n)\n", "	if n.Kind != yaml.ScalarNode {\n		defer delete(seen, n)\n	}\n"))
+mut("c07-alias-key-not-followed", ["C07"], ("ordered/yaml.go",
+ "	case yaml.AliasNode:\n		return canonicalMapKey(n.Alias)\n", "	case yaml.AliasNode:\n		return n.Alias.Value, nil\n"))
+mut("c07-merged-memo-across-siblings", ["C07", "C03"], ("ordered/yaml.go",
+ "func rangeYAMLMap(n *yaml.Node, f func(key string, val *yaml.Node) error) error {\n	return rangeYAMLMapImpl(make(map[*yaml.Node]bool), n, f)\n}",
+ "var mergedPool = make(map[*yaml.Node]bool)\n\nfunc rangeYAMLMap(n *yaml.Node, f func(key string, val *yaml.Node) error) error {\n	if len(mergedPool) > 64 {\n		mergedPool = make(map[*yaml.Node]bool)\n	}\n	delete(mergedPool, n)\n	return rangeYAMLMapImpl(mergedPool, n, f)\n}"))
+
+# ---- C08
+mut("c08-ordered-unmarshal-via-tomap", ["C08", "C03", "C10"], ("ordered/unmarshal.go",
+ "	var warns []error\n	if err := tsrc.Range(func(k string, v any) error {\n		var dv V", "	var warns []error\n	rangeSrc := tsrc.Range\n	if tsrc.Len() > 8 {\n		um := tsrc.ToMap()\n		rangeSrc = func(f func(string, any) error) error {\n			for k, v := range um {\n				if err := f(k, v); err != nil {\n					return err\n				}\n			}\n			return nil\n		}\n	}\n	if err := rangeSrc(func(k string, v any) error {\n		var dv V"))
+mut("c08-legacy-plugins-sorted", ["C08", "C03"], ("plugins.go",
+ "	case *ordered.MapSA:\n		// Legacy form:", "	case *ordered.MapSA:\n		if o.Len() > 2 {\n			sorted := ordered.NewMap[string, any](o.Len())\n			um := o.ToMap()\n			ks := make([]string, 0, len(um))\n			for k := range um {\n				ks = append(ks, k)\n			}\n			sort.Strings(ks)\n			for _, k := range ks {\n				sorted.Set(k, um[k])\n			}\n			o = sorted\n		}\n		// Legacy form:"),
+ ("plugins.go", "import (\n	\"encoding/json\"\n	\"fmt\"\n", "import (\n	\"encoding/json\"\n	\"fmt\"\n	\"sort\"\n"))
+mut("c08-marshaljson-big-maps-by-index", ["C08", "C05"], ("ordered/map.go",
+ "	err := m.Range(func(k K, v V) error {\n		if !first {\n			// Separating comma.", "	rng := m.Range\n	if m != nil && len(m.index) > 16 {\n		rng = func(f func(K, V) error) error {\n			for k, i := range m.index {\n				if err := f(k, m.items[i].Value); err != nil {\n					return err\n				}\n			}\n			return nil\n		}\n	}\n	err := rng(func(k K, v V) error {\n		if !first {\n			// Separating comma."))
+
+# ---- C13
+mut("c13-fallback-keeps-partial-step", ["C13"], ("steps.go",
+ "		step = &UnknownStep{Contents: o}\n		warns = append(warns, warning.Wrapf(err, \"fell back using unknown type of step due to an unmarshaling error\"))", "		if _, isCmd := step.(*CommandStep); !isCmd {\n			step = &UnknownStep{Contents: o}\n		}\n		warns = append(warns, warning.Wrapf(err, \"fell back using unknown type of step due to an unmarshaling error\"))"))
+mut("c13-nested-group-steps-nil", ["C13"], ("step_group.go",
+ "	if g.Steps == nil {\n		g.Steps = Steps{}\n	}", "	if g.Steps == nil && g.Group != nil {\n		g.Steps = Steps{}\n	}"))
+mut("c13-scalar-step-dropped-after-many", ["C13"], ("steps.go",
+ "		*s = append(*s, step)\n", "		if _, unk := step.(*UnknownStep); unk && i >= 8 && warning.Is(err) {\n			continue\n		}\n		*s = append(*s, step)\n"))
+mut("c13-type-nonstring-panics", ["C13"], ("steps.go",
+ "		sTypeStr, ok := sType.(string)\n		if !ok {\n			return nil, fmt.Errorf(\"unmarshaling step: step's `type` key was %T (value %v), want string\", sType, sType)\n		}", "		sTypeStr, ok := sType.(string)\n		if !ok {\n			if l, isList := sType.([]any); isList {\n				sTypeStr = l[0].(string)\n			} else {\n				return nil, fmt.Errorf(\"unmarshaling step: step's `type` key was %T (value %v), want string\", sType, sType)\n			}\n		}"))
+
+# ---- C19
+mut("c19-lazy-compaction-in-get", ["C19", "C05"], ("ordered/map.go",
+ "	idx, ok := m.index[k]\n	if !ok {\n		return zv, false\n	}\n	return m.items[idx].Value, true", "	idx, ok := m.index[k]\n	if !ok {\n		return zv, false\n	}\n	if len(m.items) > len(m.index) {\n		m.compact()\n		idx = m.index[k]\n	}\n	return m.items[idx].Value, true"))
+mut("c19-memoised-fullsource", ["C19"], ("plugin.go",
+ "type Plugin struct {\n	Source string\n	Config any\n}", "type Plugin struct {\n	Source string\n	Config any\n\n	fullSource, fullSourceOf string\n}"),
+ ("plugin.go", "func (p *Plugin) FullSource() string {\n	if p.Source == \"\" {\n		return \"\"\n	}\n", "func (p *Plugin) FullSource() string {\n	if p.fullSourceOf == p.Source && p.fullSource != \"\" {\n		return p.fullSource\n	}\n	fs := p.computeFullSource()\n	p.fullSource, p.fullSourceOf = fs, p.Source\n	return fs\n}\n\nfunc (p *Plugin) computeFullSource() string {\n	if p.Source == \"\" {\n		return \"\"\n	}\n"))
+mut("c19-shared-payload-buffer", ["C19", "C14"], ("signature/sign.go",
+ "func canonicalPayload(alg string, values map[string]any) ([]byte, error) {\n	rawPayload, err := json.Marshal(struct {", "var payloadScratch bytes.Buffer\n\nfunc canonicalPayload(alg string, values map[string]any) ([]byte, error) {\n	payloadScratch.Reset()\n	err := json.NewEncoder(&payloadScratch).Encode(struct {"),
+ ("signature/sign.go", "	if err != nil {\n		return nil, fmt.Errorf(\"marshaling JSON: %w\", err)\n	}\n	payload, err := jcs.Transform(rawPayload)", "	if err != nil {\n		return nil, fmt.Errorf(\"marshaling JSON: %w\", err)\n	}\n	payload, err := jcs.Transform(payloadScratch.Bytes())"),
+ ("signature/sign.go", "import (\n	\"context\"", "import (\n	\"bytes\"\n	\"context\""))
+
 # fix commits whose reversal is a mutant: (finding id, commit subject prefix, properties)
 REVERTS = [
     ("F1", "fix: ordered.Equal no longer panics", ["C05"]),
@@ -130,6 +205,7 @@ REVERTS = [
     ("F6", "fix: env interpolation reaches a matrix adjustment", ["C04"]),
     ("F8", "fix: a matrix without setup", ["C09", "C02"]),
     ("F12", "fix: interpolating an ordered map no longer drops", ["C04"]),
+    ("F13", "fix: ordered.Unmarshal keeps field warnings", ["C13"]),
 ]
 
 
